@@ -908,23 +908,47 @@ func checkC10(w *World, r *Report) {
 
 func u1(w *World, r *Report) {
 	bb := needFn(r, "U-1", w, fref{pkgStake, "StakeCtrler", "BeginBlock"})
+	var cl *ssa.Function
 	if bb != nil {
-		reset := false
-		for _, st := range w.storesTo(bb, "recv.allDelegatees") {
-			if c, ok := st.Val.(*ssa.Const); ok && c.IsNil() && st.Block() == bb.Blocks[0] {
-				reset = true
+		// the code that rebuilds the candidates may sit in BeginBlock or in a helper it
+		// calls unconditionally: locate the scan of the committed delegatee tree
+		isScan := func(s string) bool {
+			return strings.HasPrefix(s, "recv.delegateeLedger.IterateReadAllFinalityItems(closure(")
+		}
+		host, it, siteInBB := w.hostOfCall(bb, isScan, 0)
+		ok := host != nil
+		if ok {
+			reset := false
+			for _, st := range w.storesTo(host, "recv.allDelegatees") {
+				if c, isC := st.Val.(*ssa.Const); isC && c.IsNil() && instrDominates(st, it) {
+					reset = true
+				}
+			}
+			var srt ssa.CallInstruction
+			for _, c := range w.callsTo(host, fref{"sort", "", "Sort"}) {
+				if w.sortArgType(c) == "PowerOrderDelegatees" && w.Canon(c.Common().Args[0]) == "recv.allDelegatees" {
+					srt = c
+				}
+			}
+			// the rebuild runs on every path through BeginBlock before anything else uses the list
+			uncond := siteInBB != nil && siteInBB.Block() == bb.Blocks[0]
+			if host == bb {
+				uncond = it.Block() == bb.Blocks[0] || it.Block().Dominates(bb.Blocks[len(bb.Blocks)-1])
+				for _, b := range bb.Blocks {
+					if _, isR := lastInstr(b).(*ssa.Return); isR && b != bb.Recover && !it.Block().Dominates(b) {
+						uncond = false
+					}
+				}
+			}
+			ok = reset && srt != nil && instrDominates(it, srt) && uncond
+			if len(it.Common().Args) > 0 {
+				if mc, isMC := it.Common().Args[len(it.Common().Args)-1].(*ssa.MakeClosure); isMC {
+					cl, _ = mc.Fn.(*ssa.Function)
+				}
 			}
 		}
-		it := w.findCall(bb, "recv.delegateeLedger.IterateReadAllFinalityItems(closure(stake.(*StakeCtrler).BeginBlock$1))")
-		var srt ssa.CallInstruction
-		for _, c := range w.callsTo(bb, fref{"sort", "", "Sort"}) {
-			if w.sortArgType(c) == "PowerOrderDelegatees" && w.Canon(c.Common().Args[0]) == "recv.allDelegatees" {
-				srt = c
-			}
-		}
-		r.Check(reset && it != nil && srt != nil && instrDominates(it, srt), "U-1", "BeginBlock:candidates", "the candidate list is emptied, refilled from the committed delegatee tree and sorted by power", "BeginBlock does not rebuild the candidate list from the committed tree and sort it with PowerOrderDelegatees", fnSite(w, bb))
+		r.Check(ok, "U-1", "BeginBlock:candidates", "the candidate list is emptied, refilled from the committed delegatee tree and sorted by power on every path through BeginBlock", "BeginBlock does not rebuild the candidate list from the committed tree and sort it with PowerOrderDelegatees", fnSite(w, bb))
 	}
-	cl := w.anonOf(pkgStake, "StakeCtrler", "BeginBlock", 1)
 	if cl == nil {
 		r.Undecided("U-1", "BeginBlock$1", "candidate filter not found")
 	} else {
